@@ -23,10 +23,11 @@ def tlaset(xs):
     return "{" + ", ".join('"%s"' % x for x in xs) + "}"
 
 
-def cfg(mode, depth, sem, text, ops, invs):
-    return ("SPECIFICATION Spec\nCONSTANTS\n  Mode = \"%s\"\n  MaxDepth = %d\n  WithSem = %s\n  WithText = %s\n"
-            "  ExcludeDevs = {\"AsLiteralUnsignedNil\", \"TimeStringEquality\", \"FloatModZeroNaN\", \"SubMinDurationWraps\"}\n  RootOps = %s\nINVARIANTS %s\nCHECK_DEADLOCK FALSE\n"
-            % (mode, depth, "TRUE" if sem else "FALSE", '"%s"' % text, tlaset(ops), " ".join(invs)))
+def cfg(mode, depth, sem, text, ops, invs, size="quick"):
+    return ("SPECIFICATION Spec\nCONSTANTS\n  Mode = \"%s\"\n  MaxDepth = %d\n  ChainSize = \"%s\"\n  WithSem = %s\n  WithText = %s\n"
+            "  ExcludeDevs = {\"AsLiteralUnsignedNil\", \"TimeStringEquality\", \"FloatModZeroNaN\", \"SubMinDurationWraps\"}\n"
+            "  RootOps = %s\nINVARIANTS %s\nCHECK_DEADLOCK FALSE\n"
+            % (mode, depth, size, "TRUE" if sem else "FALSE", '"%s"' % text, tlaset(ops), " ".join(invs)))
 
 
 EXPR_INV = ["GenWellTyped", "ModelPreserves", "RepairedPreserves", "ModelIdempotent"]
@@ -53,7 +54,7 @@ def pipeline(ctx, name, cfgtext, simulate, depth, workers):
     ctx.note("%s: generated=%d distinct cases=%d verdicts=%d (TLC %d states, %.0fs)%s" % (
         name, ngen, n, len(vs), r.distinct, r.wall, " MODEL-COUNTEREXAMPLE" if modelcex else ""))
     sample = None
-    if name.startswith(("d1", "sim")):
+    if name.startswith(("d1", "sim", "chain")):
         recs = []
         with open(obsfile, encoding="utf-8") as f:
             for i, line in enumerate(f):
@@ -90,7 +91,13 @@ def run(ctx):
     for i, ops in enumerate([ALLOPS] if q else PARTS):   # depth 2 and nested parentheses, sampled, with the specs
         parts.append(("simsem_%d" % i, cfg("expr", 2, True, "all", ops, EXPR_INV), "num=%d" % (100 if q else 1200), 18, 4))
     for i, ops in enumerate([ALLOPS] if q else PARTS):   # depth 2 and nested parentheses, sampled, relation only
-        parts.append(("sim_%d" % i, cfg("expr", 2, False, "all", ops, ["GenWellTyped"]), "num=%d" % (500 if q else 8000), 18, 4))
+        parts.append(("sim_%d" % i, cfg("expr", 2, False, "all", ops, ["GenWellTyped"]), "num=%d" % (500 if q else 5000), 18, 4))
+    # depth 2, SYSTEMATIC (BFS, exhaustive): (p1 inner p2) outer p3 and p3 outer (p1 inner p2), every well-typed pair of
+    # arithmetic / bitwise / comparison operators, one or two leaves left to the evaluator (int, unsigned, 0.1, 0.5),
+    # the others boundary constants known at Reduce time; relation decided on the two real evaluations
+    for i, ops in enumerate(split):
+        parts.append(("chain_%d" % i, cfg("chain", 2, False, "none", ops, ["ChainWellTyped"], "quick" if q else "thorough"),
+                      None, None, 4))
     ctx.exhaustive = False
     build = None
     results = []
@@ -139,6 +146,8 @@ def run(ctx):
     ctx.coverage_extra["decided_how"] = {
         "value preserved / idempotent": "real Reduce and real ValuerEval observed; relation decided by Judge_c09 (TLC)",
         "time arithmetic exact": "expected node computed by TimeSem (BigInt) in TLC, compared with the real folded node",
+        "systematic depth-2 family (chain_*)": "BFS-exhaustive over both nestings x operator pairs x evaluation-time variable "
+                                               "positions / kinds x boundary constants; relation decided on the two real evaluations",
         "real evaluator vs exact EvalSem": "compared on every d1_* and simsem_* record; a difference that keeps the property is drift",
         "ReduceModel vs EvalSem / TimeSem": "TLC invariants of Gen_c09 on every d1_*, simsem_* and time case",
     }
